@@ -375,6 +375,37 @@ fn prune_previous(previous: &mut Option<PreviousMessage>, symbol_count: u64) {
     }
 }
 
+// Verification hooks: view of the private assembler state
+#[cfg(feature = "verif-hooks")]
+#[allow(missing_docs)]
+pub mod verif_hooks {
+    use super::{Assembler, PendingResult};
+    use crate::message::{Message, MessageResult};
+
+    /// (history, pending, previous), each with its deadline
+    pub fn snapshot(
+        asm: &Assembler,
+    ) -> (
+        Vec<(Vec<u8>, u64)>,
+        Option<(MessageResult, u64)>,
+        Option<(Message, u64)>,
+    ) {
+        (
+            asm.history
+                .iter()
+                .map(|td| (td.data.to_vec(), td.deadline))
+                .collect(),
+            match &asm.state {
+                PendingResult::Empty => None,
+                PendingResult::Pending(td) => Some((td.data.clone(), td.deadline)),
+            },
+            asm.previous
+                .as_ref()
+                .map(|td| (td.data.clone(), td.deadline)),
+        )
+    }
+}
+
 #[cfg(test)]
 mod tests {
     use std::convert::TryFrom;
